@@ -467,7 +467,7 @@ MANIFEST = {
     "category": "other",
     "text": "Two mechanisms are proved for all inputs (allOf required-merge per member; injective field naming); field-set fidelity under cycles, naming "
             "and declaration order is compared against a reference resolver over an enumerated space of small schema graphs in every order.",
-    "note": "The structural kind of each field's type (resolver over the IR) is not under contract. Bounded in graph size.",
+    "note": "The structural kind of each field's type (resolver over the IR) is not under contract: it is compared, bounded, with a reference derived from the property schema. Bounded in graph size.",
     "technique": "contract-based deductive verification (statement contracts, set algebra, z3) + bounded enumeration against a reference resolver",
 }
 
